@@ -64,7 +64,7 @@ def native_differential(scenario_path, runs=24):
             first = out
         outs.add(out)
         if len(outs) > 1:
-            return ["C19: separately started processes replaying the same history print different layouts (run 1 vs run %d)" % (i + 1)], \
+            return ["C19: separately started processes replaying the same history print different layouts or generated code (run 1 vs run %d)" % (i + 1)], \
                    "--- run 1\n%s--- run %d\n%s" % (first, i + 1, out)
     return [], "identical output in %d separately started processes\n%s" % (runs, first or "")
 
@@ -134,6 +134,16 @@ def plan_other(pid, tier):
                   layout.step_tasks("simple", 0, 2, 0, 0) + layout.step_tasks("simple", 1, 2, 0, 0) + layout.step_tasks("simple", 2, 1, 0, 0) +
                   layout.step_tasks("basic", 1, 2, 0, 0) +
                   layout.step_tasks("append_data", 1, 2, 0, 0), dict(base, env_pairs=True, time_slice=3600)))
+        # generator side: GeneratorConfig::default_with_custom_generators + generate() + generate_variant() on definitions
+        # built by symbolic histories; fragment generator invocations (with the data lists handed to them) and
+        # codegen calls (with their arguments) are the observed event trace
+        import genev
+        if tier == "quick":
+            gcfg = genev.genev_tasks(["simple", "append_data"], [(2, 1)]) + genev.genev_tasks(["append_data"], [(1, 1, 1), (3,)])
+        else:
+            gcfg = genev.genev_tasks(["simple", "append_data"], [(2, 1), (1, 2), (2, 2)]) + genev.genev_tasks(["append_data"], [(1, 1, 1), (2, 1, 1), (3, 1), (1, 3)])
+        P.append(("GENEV generate() event traces, %d histories shapes (pairwise query over environment-reading paths)" % len(gcfg), gcfg,
+                  dict(base, env_pairs=True, time_slice=3600)))
         P.append(("RESOLVER entry points", rd.resolver_tasks(native4), base))
         if tier != "quick":
             P.append(("HIST V=3 adds (1,1,1)", layout.hist_tasks(strategies, 3, [(1, 1, 1)]), dict(base, pending=True, final=True)))
@@ -157,6 +167,9 @@ def scenario_of(task, model):
         return rd.conv_scenario(task, model)
     if k == "resolver":
         return rd.resolver_scenario(task, model)
+    if k == "genev":
+        import genev
+        return genev.genev_scenario(task, model)
     if k == "table":
         return dict(kind="table", regs=[dict(tag=t_, uninit=u_) for t_, u_ in task["regs"]], dup=bool(task.get("dup")))
     raise ValueError(k)
@@ -190,6 +203,13 @@ def plan(pid, tier):
     # arbitrary definition satisfying the invariant: capacity / alignment / Display (C02 capacity clause, C13)
     for (K, Pn) in ([(3, 1), (4, 0)] if tier == "quick" else [(4, 1), (5, 1), (3, 2)]):
         P.append(("DEF K=%d pending=%d" % (K, Pn), layout.def_tasks(K, Pn), dict(base, final=True)))
+    if pid == "C13":
+        # generate() / generate_variant() / GeneratorConfig executed on definitions from symbolic histories: a panic in
+        # them (not inside a fragment generator's body or the codegen crate, which are event sinks) is a C13 candidate
+        import genev
+        gcfg = genev.genev_tasks(["simple", "append_data"], [(2, 1)] if tier == "quick" else [(2, 1), (1, 2), (2, 2)]) + \
+            genev.genev_tasks(["append_data"], [(1, 1, 1), (3,), (0, 2)])
+        P.append(("GENEV generate() on definitions from symbolic histories (%d history shapes)" % len(gcfg), gcfg, dict(base, pending=True)))
     # histories from the empty builder (reachability / vacuity guard, add-then-remove before close, mixtures)
     strategies = ["simple", "basic", "append_data", "append_data_reverse"]
     if tier == "quick":
@@ -505,7 +525,8 @@ FUNCS = {
     "C18": ["StaticTypeResolver::{new,add_type,add_type_allow_uninit}, <StaticTypeResolver as TypeResolver>::{type_info,dynamic_type_info}, <HostTypeResolver as TypeResolver>::type_info",
             "NativeRecordDefinitionBuilder::{add_datum,add_datum_allow_uninit,add_datum_override,add_dynamic_datum,copy_datum,close_record_variant_with}",
             "TypeResolver for &R (forwarding impl); the driver's resolver answers symbolically", "native strategies"],
-    "C19": ["everything of the layout family, with hashed containers' iteration order, addresses cast to integers, clocks and the process environment as environment symbols"],
+    "C19": ["everything of the layout family, with hashed containers' iteration order, addresses cast to integers, clocks and the process environment as environment symbols",
+            "generator::{generate, generate_variant, safe_record_generic}, GeneratorConfig::{default_with_custom_generators, common_fragment_generators, new} (GENEV; the fragment generators' bodies and the codegen crate are event sinks, not encoded)"],
     "C20": ["record::definition::convert::convert_record_definition", "NativeRecordDefinitionBuilder::{copy_datum,remove_datum,close_record_variant_with}",
             "GenericRecordDefinitionBuilder::{add_datum,remove_datum,close_record_variant_with,build}", "RecordDefinition::{variants,Index<DatumId>}, RecordVariant::{data,id}"],
 }
@@ -515,7 +536,9 @@ BOUNDS = {
            "builder (L in samples); generic builder with both dummy strategies, native builder with the shipped ones",
     "C18": "each of the five entry points that attach type information, resolver answers (size 0..24, alignment in {1,2,4,8,16}, name, may-be-uninit) symbolic, "
            "override fields symbolically present/absent, each shipped strategy; host size/alignment queries are symbols of their own",
-    "C19": "the explorations listed in samples; environment reads are counted per path (and make the path a candidate that is replayed in 24 separately started processes)",
+    "C19": "the explorations listed in samples; environment reads are counted per path (and make the path a candidate that is replayed in 24 separately started processes); "
+           "GENEV: histories of 1..3 closes with the listed additions per close, every removal subset, sizes 0..2, alignments {1,4}, two type names, two custom fragment "
+           "generators; observed: order and arguments of fragment-generator invocations and of codegen calls (the text each fragment emits is outside)",
     "C20": "source definitions from bounded histories (V closes, additions per close as listed, every removal subset, names re-used after removal, zero-size / odd / "
            "over-aligned shapes) through the native builder; targets: generic builder and native builder with each strategy",
 }
